@@ -667,6 +667,70 @@ def gen_generate(rng, sp, origin):
     return line, exp
 
 
+def gen_generate_under(rng, origin):
+    """a $GENERATE with a RELATIVE-name right-hand side under a $ORIGIN below the zone origin:
+    (lines with the statement, lines with its expansion under the same $ORIGIN, the expansion spelled
+    with absolute names and no $ORIGIN)"""
+    sub = [simple_label(rng)] + ([simple_label(rng)] if rng.random() < 0.3 else []) + origin
+    if not nl.fits([b"x" * 24] + sub):
+        sub = [b"s"] + origin
+    subt = name_text(sub)
+    start = rng.choice([0, 1, 7])
+    stop = start + rng.choice([0, 1, 2])
+    kind = rng.choice([b"CNAME", b"PTR", b"NS", b"DNAME"])
+    lhs_pre = rng.choice([b"alias", b"a-", b"x.y"])
+    r = rng.random()
+    if r < 0.25:
+        rhs_rel = None            # "@": the current origin
+        rhs = b"@"
+    elif r < 0.5:
+        rhs_rel = b"host$"
+        rhs = rhs_rel
+    elif r < 0.75:
+        rhs_rel = b"t${0,2}.deep"
+        rhs = rhs_rel
+    else:
+        rhs_rel = b"host"         # a constant relative name
+        rhs = rhs_rel
+    ttl = rng.choice([b"300 ", b"60 ", b""]) if True else b""
+    cls = rng.choice([b"IN ", b""])
+    stmt = b"$GENERATE %d-%d %s$ %s%s%s %s" % (start, stop, lhs_pre, ttl, cls, kind, rhs)
+    rel_lines, abs_lines = [], []
+    for i in range(start, stop + 1):
+        owner = lhs_pre + b"%d" % i
+        if rhs_rel is None:
+            tr, ta = b"@", subt
+        else:
+            tr = rhs_rel.replace(b"${0,2}", b"%02d" % i).replace(b"$", b"%d" % i)
+            ta = tr + b"." + subt
+        rel_lines.append(owner + b" " + (ttl or b"300 ") + b"IN " + kind + b" " + tr)
+        abs_lines.append(owner + b"." + subt + b" " + (ttl or b"300 ") + b"IN " + kind + b" " + ta)
+    # without a TTL field the statement uses the default/last TTL: make that 300 in every spelling
+    pre = b"$TTL 300\n"
+    origin_line = b"$ORIGIN " + subt
+    return pre, [origin_line, stmt], [origin_line] + rel_lines, abs_lines
+
+
+NEUTRAL_RECS = [b"NSEC @ A NSEC", b"KEY 256 3 8 AQID", b"RRSIG NSEC 8 2 300 20260101000000 20250101000000 1 @ AQID",
+                b"RRSIG KEY 8 2 300 20260101000000 20250101000000 2 @ AQID"]
+REGULAR_RECS = [b"A 10.0.0.5", b"TXT \"x\"", b"MX 10 mail", b"AAAA 2001:db8::5"]
+CNAME_RECS = [b"CNAME www", b"RRSIG CNAME 8 2 300 20260101000000 20250101000000 3 @ AQID"]
+
+
+def gen_order_lines(rng):
+    """record lines of one owner mixing neutral types, CNAME and other data"""
+    recs = rng.sample(NEUTRAL_RECS, rng.randint(1, 2))
+    r = rng.random()
+    if r < 0.45:
+        recs += [CNAME_RECS[0]] + rng.sample(REGULAR_RECS, rng.randint(1, 2))   # must be rejected in every order
+    elif r < 0.7:
+        recs += rng.sample(CNAME_RECS, rng.randint(1, 2))                        # CNAME + neutral: accepted
+    else:
+        recs += rng.sample(REGULAR_RECS, rng.randint(1, 2))                      # other data + neutral: accepted
+    rng.shuffle(recs)
+    return [b"web 300 IN " + x for x in recs]
+
+
 def mutate_text(rng, text):
     b = bytearray(text)
     if not b:
@@ -887,7 +951,11 @@ def cases(ctx):
             text += name_text(n_abs) + b" 300 IN " + rng.choice([b"CNAME somewhere", b"A 192.0.2.7", b"NSEC @ A", b"RRSIG CNAME 8 2 300 20260101000000 20250101000000 1 @ AQID"]) + b"\n"
         elif r < 0.32:
             sp = Speller(rng, origin)
-            line, _ = gen_generate(rng, sp, origin)
+            if rng.random() < 0.4:
+                _, stmt, _, _ = gen_generate_under(rng, origin)
+                line = b"\n".join(stmt) + b"\n"
+            else:
+                line, _ = gen_generate(rng, sp, origin)
             if rng.random() < 0.3 and b"$TTL" not in text:
                 text = b"$TTL 300\n" + text
             text += line
@@ -969,6 +1037,36 @@ def cases(ctx):
         t_exp = with_block(random.Random(k), base, exp)
         yield "respell-outside-inherit", [21, origin, int(rel), base, t_inh]
         yield "respell-owner-outside", [21, origin, int(rel), t_exp, t_inh]
+    # $GENERATE under a $ORIGIN below the zone origin, relative-name right-hand side (and "@")
+    for i in range(ctx.n(60, 800)):
+        origin, rel, nodes = gen_zone(rng, max_names=1)
+        base = zone_file(rng, origin, rel, nodes, plain=True)
+        pre, stmt, exp_rel, exp_abs = gen_generate_under(rng, origin)
+        t_stmt = pre + base + b"\n".join(stmt) + b"\n"
+        t_rel = pre + base + b"\n".join(exp_rel) + b"\n"
+        t_abs = pre + base + b"\n".join(exp_abs) + b"\n"
+        yield "respell-generate", [21, origin, int(rel), t_stmt, t_rel]
+        yield "respell-generate-absolute", [21, origin, int(rel), t_stmt, t_abs]
+        yield "read", [1, origin, int(rel), 1, t_stmt]
+    # the order of the records of one owner that mixes neutral types (NSEC, KEY, their RRSIGs), CNAME and
+    # other data: every order must end alike (all rejected, or equal zones) - from_text and read_rrsets
+    import itertools
+    for i in range(ctx.n(40, 500)):
+        origin, rel, nodes = gen_zone(rng, max_names=1)
+        base = zone_file(rng, origin, rel, nodes, plain=True)
+        lines = gen_order_lines(rng)
+        perms = list(itertools.permutations(lines))
+        first = base + b"\n".join(perms[0]) + b"\n"
+        others = perms[1:] if len(perms) <= 6 else rng.sample(perms[1:], ctx.n(4, 8))
+        yield "read", [1, origin, int(rel), 1, first]
+        yield "rrsets", [6, origin, int(rel), first]
+        for pm in others:
+            t = base + b"\n".join(pm) + b"\n"
+            yield "respell-order", [21, origin, int(rel), first, t]
+            yield "rrsets-order", [24, origin, int(rel), first, t]
+            if rng.random() < 0.3:
+                yield "read", [1, origin, int(rel), 1, t]
+                yield "rrsets", [6, origin, int(rel), t]
     # $INCLUDE (file system; oracle only): a file split into a main part and an included part, optionally
     # with an origin for the included part, loads like the flat file with $ORIGIN around the part
     for i in range(ctx.n(40, 600)):
@@ -1020,6 +1118,7 @@ def cases(ctx):
 
 
 _WEIRD_INT = re.compile(rb"^[0-9+_-]*[+_-][0-9+_-]*$")
+_ESC_BLANK_INT = re.compile(rb'(?:^|[ \t\n()";])(?:[0-9]+\\[ \t]|\\[ \t][0-9]+(?:$|[ \t\n()";]))')
 _SPLIT = re.compile(rb"[ \t\n()\";]+")
 _MODEL_TYPES = {k.encode() for k in T}
 
@@ -1027,10 +1126,18 @@ _MODEL_TYPES = {k.encode() for k in T}
 def unmodelled_token(text):
     """a token the library would read as a record type the model has no schema for, or an
     integer spelling only Python's int() accepts: such files are compared by the oracle only"""
+    if _ESC_BLANK_INT.search(text):
+        return True         # an escaped blank next to digits: int("65535 ") is Python's reading
+    prev = b""
     for t in _SPLIT.split(text):
-        if not t or t.startswith(b"$"):
+        if not t:
+            continue
+        was_generate, prev = prev.upper() == b"$GENERATE", t
+        if t.startswith(b"$"):
             continue
         u = t.upper()
+        if was_generate and re.match(rb"^[0-9]+-[0-9]+(/[0-9]+)?$", t):
+            continue        # a plain $GENERATE range (the model's grange reads these)
         if _WEIRD_INT.match(t) and any(48 <= c <= 57 for c in t):
             return True
         if u in _MODEL_TYPES or b"\\" in t:
@@ -1200,9 +1307,9 @@ def impl(case):
                     outs.append(None)
                     codes.append(exc_code(e).code)
             if codes != [0, 0]:
-                return [codes[0], codes[1], 0, 0]
+                return [codes[0], codes[1], 0, 0, int(all(o is None or rrsets_exclusive(o) for o in outs))]
             lc = lambda rs: [(tuple(lower(x) for x in n), ty, cov, ttl, rds) for n, ty, cov, ttl, rds in rs]
-            return [0, 0, int(lc(outs[0]) == lc(outs[1])), len(outs[0])]
+            return [0, 0, int(lc(outs[0]) == lc(outs[1])), len(outs[0]), int(rrsets_exclusive(outs[0]) and rrsets_exclusive(outs[1]))]
         if op == 23:
             return dns.ttl.from_text(str(case[1]))
     except Exception as e:  # noqa
@@ -1211,6 +1318,18 @@ def impl(case):
 
 
 # ------------------------------------------------------------------ oracle
+
+
+def rrsets_exclusive(rs):
+    """no owner has a CNAME / RRSIG(CNAME) rrset together with other (non-neutral) data;
+    rs = [(name, type, covers, ttl, rdatas)...]"""
+    by = {}
+    for n, ty, cov, ttl, rds in rs:
+        by.setdefault(tuple(lower(x) for x in n), set()).add(kind_of(ty, cov))
+    return not any("C" in ks and "R" in ks for ks in by.values())
+
+
+AGREE_KINDS = ("respell-generate", "respell-order", "rrsets-order")
 
 
 def node_kinds(rdss):
@@ -1245,6 +1364,9 @@ def oracle(ctx, kind, case, out):
                 nabs = n if (n and n[-1] == b"") else n + out[0]
                 if not is_sub(nabs, out[0]):
                     fail("a name outside the origin was loaded", sig="outside")
+    elif op == 6:
+        if not rrsets_exclusive([(n, r[0], r[1], r[2], r[3]) for n, r in out]):
+            fail("read_rrsets returned a CNAME together with other data at one owner", sig="rrsets-cname")
     elif op == 20:
         for r in out:
             if not (r[0] and r[1]):
@@ -1252,12 +1374,13 @@ def oracle(ctx, kind, case, out):
                      sig="roundtrip", style=case[4])
     elif op == 21:
         c1, c2, eq, eqd = out
-        if kind == "respell-generate":
-            # the statement and its expansion must be accepted or rejected alike
+        if kind in AGREE_KINDS:
+            # the two spellings must be accepted or rejected alike (record order within a name, or a
+            # $GENERATE statement and its expansion)
             if (c1 == 0) != (c2 == 0):
-                fail("$GENERATE and its expansion: one is rejected (%d / %d)" % (c1, c2), sig=kind)
+                fail("equivalent spellings: one is rejected, the other loads (%d / %d)" % (c1, c2), sig=kind)
             elif c1 == 0 and not (eq and eqd):
-                fail("$GENERATE and its expansion loaded to different zones", sig=kind)
+                fail("equivalent spellings loaded to different zones", sig=kind)
         elif c1 or c2:
             fail("a well-formed spelling was rejected (%d / %d)" % (c1, c2), sig=kind + "-rejected")
         elif not (eq and eqd):
@@ -1272,8 +1395,15 @@ def oracle(ctx, kind, case, out):
         if not all(out):
             fail("$UNICODE zone changed by write-then-read", sig=kind)
     elif op == 24:
-        c1, c2, eq, n1 = out
-        if c1 or c2:
+        c1, c2, eq, n1, excl = out
+        if not excl:
+            fail("read_rrsets returned a CNAME together with other data at one owner", sig="rrsets-cname")
+        if kind in AGREE_KINDS:
+            if (c1 == 0) != (c2 == 0):
+                fail("read_rrsets: one record order is rejected, the other loads (%d / %d)" % (c1, c2), sig=kind)
+            elif c1 == 0 and not eq:
+                fail("read_rrsets: record orders gave different rrsets", sig=kind)
+        elif c1 or c2:
             fail("read_rrsets rejected a well-formed spelling (%d / %d)" % (c1, c2), sig=kind + "-rejected")
         elif not eq:
             fail("read_rrsets: equivalent spellings gave different rrsets", sig=kind)
